@@ -71,6 +71,8 @@ impl Line {
     #[verifier::external_body]
     pub fn new() -> (r: Line) ensures r.lineparts@.len() == 0 { unimplemented!() }
     #[verifier::external_body]
+    pub fn new_from_linepart(linepart: LinePart) -> (r: Line) ensures r.lineparts@ == seq![linepart] { unimplemented!() }
+    #[verifier::external_body]
     pub fn append(&mut self, linepart: LinePart)
         requires old(self).lineparts@.len() > 0 ==> old(self).lineparts@.last().blockoffset <= linepart.blockoffset && old(self).lineparts@.last().fileoffset < linepart.fileoffset
         ensures final(self).lineparts@ == old(self).lineparts@.push(linepart)
@@ -617,12 +619,25 @@ impl LineReader {
             lemma_split(bo_middle as int, bi_middle as int, bs);
             lemma_split(bo_middle as int, 0, bs);
         }
-//@after "line.prepend(li);" 1
+//@after "line.prepend(li);" * to="let fo_nl_a_search_start: FileOffset"
             proof { lemma_mid(line.lineparts@[0], tail, f, bs, bo_middle as int, fileoffset as int, e, bi_middle_end as int, nl_b_eof); }
-//@after "line.prepend(li);" 2
-                proof { lemma_mid(line.lineparts@[0], tail, f, bs, bo_middle as int, fileoffset as int, e, bi_middle_end as int, nl_b_eof); }
-//@after "line.prepend(li);" 3
-                    proof { lemma_mid(line.lineparts@[0], tail, f, bs, bo_middle as int, fileoffset as int, e, bi_middle_end as int, nl_b_eof); }
+//@before "if bof == bo_middle {"
+        let ghost a2a__ = (bof == bo_middle);
+//@after "line.prepend(li);" * from="let fo_nl_a_search_start: FileOffset" to="if !found_nl_a && !begof {"
+            proof {
+                lemma_mid(line.lineparts@[0], tail, f, bs, bo_middle as int, fileoffset as int, e, bi_middle_end as int, nl_b_eof);
+                if !a2a__ {
+                // the byte before `fileoffset` lies in the block before the middle one: the offset is the first byte of the middle block
+                assert(bi_middle == 0) by {
+                    if bi_middle > 0 { lemma_split(bo_middle as int, bi_middle as int - 1, bs); }
+                }
+                assert(bo_middle >= 1) by { if bo_middle == 0 { assert(mbase == 0); } }
+                assert((bo_middle as int - 1) * bs + bs == mbase) by (nonlinear_arith) requires mbase == bo_middle as int * bs;
+                lemma_split(bo_middle as int - 1, bs - 1, bs);
+                }
+            }
+//@after "line.prepend(li);" * from="if !found_nl_a && !begof {"
+                proof { lemma_prepend(line.lineparts@[0], line1, f, bs); }
 //@after "let fo_nl_a_search_start: FileOffset"
         proof { lemma_offs(fo_nl_a_search_start as int, bs); }
 //@loop 4
@@ -640,19 +655,6 @@ impl LineReader {
                 decreases bi_at,
 //@before "let fo_: FileOffset = if found_nl_a {"
             proof { lemma_split(bo_middle as int, bi_at as int, bs); }
-//@after "line.prepend(li);" 4
-            proof { lemma_mid(line.lineparts@[0], tail, f, bs, bo_middle as int, fileoffset as int, e, bi_middle_end as int, nl_b_eof); }
-//@after "line.prepend(li);" 5
-            proof {
-                lemma_mid(line.lineparts@[0], tail, f, bs, bo_middle as int, fileoffset as int, e, bi_middle_end as int, nl_b_eof);
-                // the byte before `fileoffset` lies in the block before the middle one: the offset is the first byte of the middle block
-                assert(bi_middle == 0) by {
-                    if bi_middle > 0 { lemma_split(bo_middle as int, bi_middle as int - 1, bs); }
-                }
-                assert(bo_middle >= 1) by { if bo_middle == 0 { assert(mbase == 0); } }
-                assert((bo_middle as int - 1) * bs + bs == mbase) by (nonlinear_arith) requires mbase == bo_middle as int * bs;
-                lemma_split(bo_middle as int - 1, bs - 1, bs);
-            }
 //@before "if !found_nl_a && begof {"
         proof {
             assert(parts_true(f, bs, line.lineparts@) && s_end(line.lineparts@) == e);
@@ -699,10 +701,6 @@ impl LineReader {
                             if (bi_at as int) < bs { lemma_split(bof as int, bi_at as int, bs); }
                             else { lemma_split(bof as int + 1, 0, bs); }
                         }
-//@after "line.prepend(li);" 6
-                            proof { lemma_prepend(line.lineparts@[0], line1, f, bs); }
-//@after "line.prepend(li);" 8
-                proof { lemma_prepend(line.lineparts@[0], line1, f, bs); }
 //@before "let fo_end: FileOffset = line.fileoffset_end();"
         proof {
             assert(found_nl_a);
@@ -782,12 +780,8 @@ impl LineReader {
             lemma_split(bo_middle as int, bi_middle as int, bs);
             lemma_split(bo_middle as int, 0, bs);
         }
-//@after "line.prepend(li);" 1
+//@after "line.prepend(li);" *
             proof { if found_nl_b { lemma_mid(line.lineparts@[0], tail, f, bs, bo_middle as int, fileoffset as int, e, bi_middle_end as int, nl_b_eof); } }
-//@after "line.prepend(li);" 2
-                proof { lemma_mid(line.lineparts@[0], tail, f, bs, bo_middle as int, fileoffset as int, e, bi_middle_end as int, nl_b_eof); }
-//@after "line.prepend(li);" 3
-                        proof { lemma_mid(line.lineparts@[0], tail, f, bs, bo_middle as int, fileoffset as int, e, bi_middle_end as int, nl_b_eof); }
 //@before "let linep: LineP = self.insert_line(line);" *
             proof {
                 broadcast use group_btree_axioms;
